@@ -303,6 +303,7 @@ func checkAssemblerOrder(c *core.Ctx, pkg, rp string) {
 		checkUnlinkSides(c, r6, pkg)
 	}
 
+	limitPairing(c, c.Rule(rp+".18", "T", "each page limit is compared with the counter it limits (= R11.11): data behind a gap is forced out only when the limit that was configured is reached"))
 	if pkg == "reassembly" {
 		containerSiblings(c, c.Rule(rp+".15", "T", "the two byteContainer implementations agree on consuming a skip from the receiver's own window"))
 		checkCoherentTriples(c, c.Rule(rp+".14", "T", "a connection is returned together with its own two halves"))
